@@ -175,6 +175,10 @@ func (w *Watcher) StartWatchingSubChannel(
 
 	parentCh.subChsAccess.Lock()
 	defer parentCh.subChsAccess.Unlock()
+	if parentCh.isClosed {
+		// The parent could have been de-registered while we were waiting for the mutex.
+		return nil, nil, errors.New("parent channel not registered with the watcher")
+	}
 	statesPub, eventsSub, err := w.startWatching(ctx, parentCh, signedState)
 	if err != nil {
 		return nil, nil, err
